@@ -104,6 +104,7 @@ Record e2e_case := {
   e_row : N;                (* row of the targeted violation *)
   e_dir : str;              (* text of the inserted comment, without '#' *)
   e_comments_after : list comment;
+  e_raw_after : list violation;   (* report of the edited module with every marker defused *)
   e_after : list violation }.
 
 Definition model_report (cs : list comment) (raw : list violation) : option (list violation) :=
@@ -121,9 +122,16 @@ Definition edit_row (p : placement) (r : N) : N :=
   | PBelow => r + 1
   end.
 
+(* " #" ++ d appended to a line that already ends in a comment extends that comment *)
+Definition extend_comment (r : N) (d : str) (cs : list comment) : list comment :=
+  map (fun x => if c_row x =? r then {| c_row := r; c_text := c_text x ++ [32; 35] ++ d |} else x) cs.
+
 Definition edited_comments (c : e2e_case) : list comment :=
   match e_place c with
-  | PSameLine => append_comment (e_row c) (e_dir c) (e_comments c)
+  | PSameLine =>
+      if existsb (fun x => c_row x =? e_row c) (e_comments c)
+      then extend_comment (e_row c) (e_dir c) (e_comments c)
+      else append_comment (e_row c) (e_dir c) (e_comments c)
   | p => insert_comment_line (edit_row p (e_row c)) (e_dir c) (e_comments c)
   end.
 
@@ -145,8 +153,11 @@ Definition before_agrees (c : e2e_case) : bool :=
   | None => false
   end.
 
+(* the hypothesis H_shift / H_append of [insert_directive_effect], as observed *)
+Definition hshift_holds (c : e2e_case) : bool := same_violations (edited_raw c) (e_raw_after c).
+
 Definition after_agrees (c : e2e_case) : bool :=
-  match model_report (edited_comments c) (edited_raw c) with
+  match model_report (edited_comments c) (e_raw_after c) with
   | Some r => same_violations r (e_after c)
   | None => false
   end.
@@ -177,7 +188,7 @@ Definition no_directive_above (c : e2e_case) : bool :=
   end.
 
 Definition prediction_agrees (c : e2e_case) : bool :=
-  negb (no_directive_above c) ||
+  negb (no_directive_above c) || negb (hshift_holds c) ||
   match predicted_after c with
   | Some r => same_violations r (e_after c)
   | None => false
